@@ -675,7 +675,7 @@ def run(ctx):
         "directive text as parsed by the real parser, Python oracle",
         "the abstraction of the per-layer filter bitmap: a Filtered forwards iff its own filter accepted in the same pass (C07)"]
     rep.assumptions = [
-        "Built: fewer than 64 per-layer filters (the code asserts <= 64; with 64 Registry::enabled can veto)",
+        "Built: at most 64 per-layer filters (the code asserts it; Registry::enabled = FilterMap::any_enabled never vetoes since d650aab)",
         "user closures are pure functions of (metadata, context number); LeafOK = their hints / callsite filters are honest",
         "EnvFilter value matchers restricted to u64 literals; directive text -> structure is the real parser's job (C11)",
         "every callsite is registered (register_callsite) before enabled() is asked about it, as tracing-core guarantees",
